@@ -351,6 +351,30 @@ def u_multi_refusals(root):
     return eng
 
 
+def u_hist_ctor_guard(root):
+    """HistContainer.__init__ (n_bins + bin_range form): a descending bin_range is refused with ValueError and an ascending one is not refused for its order.
+    The body is sliced on the locals low / high: the statements that build the container (base-class constructor, edges, first fill) are dropped and stay with the
+    native constructor enumeration of C12 / C19."""
+    eng = engine(root, c12.FILES, c12.SCHEMA, [])        # no quantified spec axioms: the obligations are quantifier-free, so a broken guard gets a counter-model
+    eng.lib["tuple"] = lambda e, st, a, kw, n: a[0]
+    eng.lib["np.linspace"] = lambda e, st, a, kw, n: VSeq.fresh("linspace")
+    lo, hi = z3.Reals("range_low range_high")
+    nb = z3.Int("n_bins_arg")
+
+    def init(e, st, me_):
+        st.assume(nb >= 1)
+        return {"n_bins": VNum(nb), "bin_range": VTuple([VNum(lo), VNum(hi)]), "bin_edges": VNone(), "fill_data": VNone(), "dtype": VNone()}
+    c = Contract("HistContainer", "__init__")
+
+    def post(vw):
+        if vw.flow == "raise":
+            return [("refused only for a descending range", lo > hi), ("the refusal is a ValueError", z3.BoolVal(vw.exc == "ValueError"))]
+        return [("accepted only for an ascending range: a descending bin_range is refused", lo <= hi)]
+    c.ensures.append(post)
+    eng.verify("HistContainer", "__init__", None, init, contract=c, slice_on={"low", "high"}, tag="(n_bins, bin_range)")
+    return eng
+
+
 def units(root):
     shared_c12 = [u for u in c12.units(root) if any(k in u.name for k in ("set_bins", "rebin", "fill("))]
     shared_c16 = [u for u in c16.units(root) if u.name in ("ConfidenceLevel setters", "ConfidenceLevel.__init__")]
@@ -361,5 +385,5 @@ def units(root):
     shared_c14 = [u for u in c14.units(root) if u.name in ("GaussianMatrixParameterConstraint.__init__", "MatrixGaussianError.__init__", "MatrixGaussianError helpers")]
     return [Unit("SimpleGaussianError.__init__ guards", u_error_ctor_guards), Unit("MatrixGaussianError correlation-matrix guards", u_matrix_error_guards),
             Unit("DataContainerBase._add_error_object", u_add_error_object), Unit("CostFunction_NegLogLikelihood.is_data_compatible", u_poisson_compat),
-            Unit("XYContainer._find_axis_raise", u_find_axis), Unit("NexusFitter.set_fit_parameter_values", u_set_fit_parameter_values), Unit("FitBase constraint / limit names", u_fit_names),
+            Unit("XYContainer._find_axis_raise", u_find_axis), Unit("HistContainer.__init__ refuses a descending bin_range", u_hist_ctor_guard), Unit("NexusFitter.set_fit_parameter_values", u_set_fit_parameter_values), Unit("FitBase constraint / limit names", u_fit_names),
             Unit("MultiFit.disable_error does not swallow a member's refusal", u_multi_refusals, bounded="two member fits (recording stand-ins), the refusing member at either position"), Unit("Nexus.add_dependency rollback", u_add_dependency, bounded="dependency lists of length <= 3 over 3 nodes, with / without dependencies that existed before; node objects and the cycle checker are recording stand-ins")] + prefixed("HistContainer", shared_c12) + prefixed("", shared_c16) + prefixed("", shared_c02) + prefixed("", shared_c14) + prefixed("fit:", shared_c03)
